@@ -44,6 +44,14 @@ checks = {
    technique="exhaustive enumeration over every registered RR type (default, all ≤2-3-deviation vectors and the maximal instance; every EDNS0 option and SVCB key kind through the OPT/SVCB alphabets) and over populated messages: reflection+unsafe walk of the object graphs of original vs Copy/CopyTo and of Unpack results vs their input buffer (address-range disjointness), write-through tests in both directions, overwriting every octet of the input buffer, and deep snapshots around each read-only operation incl. RRSIG.Sign/Verify",
    text="No reachable slice/map/pointee range is shared between a record or message and its copy, nor between an unpacked message and the buffer; no write is observable through the other object; read-only operations leave their arguments bit-identical apart from Rdlength and the OPT extended-RCODE octet.",
    note="Trusted: the reflection walker (follows exported and unexported fields, interfaces, pointers, slices, maps). Strings are exempt (immutable)."),
+ "C10": dict(cat="exploration", eng="E1+E3", ref="§5 C10",
+   technique="bounded-exhaustive enumeration of RRsets (every RFC 4034 §6.2 name-bearing type + A/AAAA/TXT/HINFO/DNSKEY; 1-3 records; all orders, duplicate patterns, TTLs, owner/RDATA case spellings, wildcard and near-wildcard owners) × 6 algorithms with fixed keys, cross-checked in both directions between the real RRSIG.Sign/Verify and an independent canonical-form + crypto/* signer/verifier; every single-field alteration of records, RRSIG and DNSKEY, every single-bit flip of the signature and canonical RDATA",
+   text="Library signatures verify under the reference verifier and reference signatures under the library; results are invariant under the stated presentations; every enumerated alteration and pre-check mismatch is rejected.",
+   note="Trusted: harness/ref/canon (validated against RFC 4034/5155/6605/8080 vectors in canon_test.go), crypto/rsa|ecdsa|ed25519; dns.PackRR supplies uncompressed RDATA octets (C01). RRSIG/NSEC RDATA name folding accepted under either RFC 4034 or RFC 6840 reading."),
+ "C17": dict(cat="exploration", eng="E1", ref="§5 C17",
+   technique="bounded-exhaustive enumeration of DNSKEY RDATA (flags × protocol × algorithm × key lengths/patterns), DS digest types × owner spellings, NSEC3 names × salts × iterations (incl. 65535), NSEC3 interval shapes × hash positions constructed by 160-bit arithmetic × zone membership, fixed and fresh keys through Generate/PrivateKeyString/NewPrivateKey with cross sign/verify, and validity windows × time offsets, each compared with closed-form RFC definitions computed with the standard library",
+   text="KeyTag, ToDS, HashName, Match, Cover, key export/import and ValidityPeriod agree with the RFC 4034 App. B / §5.1.4, RFC 5155 §5 and RFC 1982 definitions on every enumerated case (known findings listed separately).",
+   note="Trusted: harness/ref/canon. Key material of the fresh-key space is random per run (case set is fixed); VERIF_SEED does not select cases."),
 }
 na_reason = "check not built yet in this session (planned in DESIGN.md §5); not claimed until it runs"
 m = {
